@@ -45,6 +45,7 @@ type Exec struct {
 	discover bool
 	wlogs    []*writeLog
 	written  map[string]bool
+	revealed map[string]bool
 	tagFacts map[int]*Term // interface tag term -> literal type tag known from the precondition
 
 	pendingAssume []*Term
